@@ -243,9 +243,18 @@ func (r *Rule) doEvaluate(logger debuglog.Logger, phase types.RulePhase, tx *Tra
 				continue
 			}
 			var values []types.MatchData
+			ownExceptions := false
 			for _, c := range ecol {
 				if c.Variable == v.Variable {
 					// TODO shall we check the pointer?
+					if !ownExceptions {
+						// v is a copy of the rule's variable, but its Exceptions still share the backing
+						// array of the rule, which is shared by every transaction. Clip the capacity so
+						// that append copies instead of writing this transaction's exceptions into the
+						// rule, where concurrent transactions would race on them (and could pick them up).
+						v.Exceptions = v.Exceptions[:len(v.Exceptions):len(v.Exceptions)]
+						ownExceptions = true
+					}
 					v.Exceptions = append(v.Exceptions, ruleVariableException{c.KeyStr, c.KeyRx})
 				}
 			}
